@@ -357,6 +357,8 @@ def table(tier="quick"):
     add("khatri_rao_kron", "tensorly.tenalg.khatri_rao",
         lambda d: (lambda i=cpinit(d): (tenalg.khatri_rao(i[1]), tenalg.kronecker(i[1][:2]), tenalg.inner(i[1][0], i[1][0]), tenalg.outer([i[1][0][:, 0], i[1][1][:, 0]]))),
         fam="FPure", dts=ALL3)
+    add("khatri_rao_vectors", "tensorly.tenalg.khatri_rao", lambda d: (lambda u=d.arr(4), v=d.arr(3): (tenalg.khatri_rao([u, v]), tenalg.khatri_rao([u, v], mask=np.ones((4, 3), dtype=bool)))),
+        fam="FPure", dts=ALL3)
     add("mttkrp_einsum", "tensorly.tenalg.unfolding_dot_khatri_rao", lambda d: (lambda X=d.arr(*SH), i=cpinit(d): _einsum(lambda: tenalg.unfolding_dot_khatri_rao(X, i, 1))), fam="FPure", dts=ALL3)
     add("higher_order_moment", "tensorly.tenalg.higher_order_moment", lambda d: (lambda X=d.arr(6, 3): tenalg.higher_order_moment(X, 3)), fam="FMoment")
     # ------------------------------------------------------------------ random generators with dtype=
@@ -430,7 +432,7 @@ def table(tier="quick"):
     add("class_CPPower", "tensorly.decomposition.CPPower", lambda d: (lambda X=d.arr(*SH): dec.CPPower(R, n_repeat=2, n_iteration=2).fit_transform(X)), fam="FPower")
     add("tensor_train_OI", "tensorly.contrib.decomposition.tensor_train_OI", lambda d: (lambda X=d.arr(*SH): (tensor_train_OI(X, [1, 2, 2, 1], n_iter=1, return_errors=True), tensor_train_OI(X, [1, 2, 2, 1], n_iter=2, trajectory=True, return_errors=False))), fam="FSvdChain")
     add("tensor_ring_als_sampled_uniform", "tensorly.decomposition.tensor_ring_als_sampled",
-        lambda d: (lambda X=d.arr(*SH): dec.tensor_ring_als_sampled(X, [2, 2, 2, 2], n_samples=10, n_iter_max=3, random_state=1, uniform_sampling=True)), fam="FTrAlsSampled")
+        lambda d: (lambda X=d.arr(*SH): dec.tensor_ring_als_sampled(X, [2, 2, 2, 2], n_samples=10, n_iter_max=3, random_state=1, uniform_sampling=True)), fam="FTrAlsSampled", opts=dict(alt=True))
     add("tensor_ring_als_ls_solve", "tensorly.decomposition.tensor_ring_als",
         lambda d: (lambda X=d.arr(*SH): dec.tensor_ring_als(X, [2, 2, 2, 2], n_iter_max=3, random_state=1, ls_solve="normal_eq")), fam="FTrAls")
     # factorised-tensor conversions
@@ -534,7 +536,7 @@ def random_rows(rng, n):
     shapes = [(4, 3), (3, 4, 2), (4, 3, 5), (2, 3, 2, 3)]
     for i in range(n):
         kind = rng.choice(["parafac", "parafac", "parafac", "nn_parafac", "tucker", "constrained", "admm", "nn_hals", "nn_tucker_hals",
-                           "parafac2", "parafac2", "prox", "prox"])
+                           "parafac2", "parafac2", "prox", "prox", "maskmul", "maskmul"])
         sh = rng.choice(shapes)
         rank = rng.choice([1, 2, 3])
         init = rng.choice(["random", "svd", "user"])
@@ -542,7 +544,32 @@ def random_rows(rng, n):
         errors = rng.random() < 0.5
         norm = rng.random() < 0.4
         dt_real = rng.choice([F32, F32, F64])
-        if kind == "parafac":
+        if kind == "maskmul":
+            # the plain mask multipliers: entry point x data dtype (all four) x mask dtype x order (1-D / one matrix / n-D) x weights x tenalg backend
+            from tensorly import cp_tensor as cpt, tenalg
+            which = rng.choice(["cp_to_tensor", "khatri_rao", "cp_lstsq_grad"])
+            mkm = rng.choice(["same", "bool", "int", "f64", "f32", None])
+            shm = rng.choice([(5,), (4, 3), (3, 4, 2), (2, 3, 2, 3)]) if which != "cp_lstsq_grad" else rng.choice([(4, 3), (3, 4, 2)])
+            dtm = rng.choice([F32, F32, F64, "complex64", C128])
+            now = rng.random() < 0.3
+            ein = rng.random() < 0.3
+
+            def build(d, which=which, mkm=mkm, shm=shm, rank=rank, now=now, ein=ein):
+                w = None if now else np.ones(rank, dtype=d.dt)
+                fs = [d.arr(s_, rank) for s_ in shm]
+                m = d.mask(shm, mkm) if mkm else None
+                X = d.arr(*shm)
+                if which == "cp_to_tensor":
+                    f = lambda: cpt.cp_to_tensor((w, fs), mask=m)
+                elif which == "khatri_rao":
+                    f = lambda: tenalg.khatri_rao(fs, weights=w, mask=m)
+                else:
+                    f = lambda: cpt.cp_lstsq_grad(CPTensor((w, fs)), X, return_loss=True, mask=m)
+                return (lambda: _einsum(f)) if ein else f
+            add(f"rnd{i}_{which}_mask_{mkm}_{'x'.join(map(str, shm))}_r{rank}_w{int(not now)}_e{int(ein)}",
+                {"cp_to_tensor": "tensorly.cp_tensor.cp_to_tensor", "khatri_rao": "tensorly.tenalg.khatri_rao", "cp_lstsq_grad": "tensorly.cp_tensor.cp_lstsq_grad"}[which],
+                build, "FMaskMul", dict(alt=(which == "cp_lstsq_grad")), mkm, [dtm], slotmap={"": "out0"})
+        elif kind == "parafac":
             ls = rng.random() < 0.4
             sp = rng.random() < 0.25
             l2 = rng.random() < 0.3
@@ -2047,7 +2074,7 @@ def clf_mask_multiplier(f):
     offending array having exactly that promoted dtype (Theorem C18_mask_multiplier_is_promotion)"""
     i = f["inputs"]
     m, dt = i.get("mask_dtype"), i.get("dtype")
-    if m is None or dt is None or not i.get("failures") or not str(i.get("config", "")).startswith(("cp_to_tensor_mask", "khatri_rao_mask", "cp_lstsq_grad_mask")):
+    if m is None or dt is None or not i.get("failures") or not any(k in str(i.get("config", "")) for k in ("cp_to_tensor_mask", "khatri_rao_mask", "cp_lstsq_grad_mask")):
         return False
     prom = str(np.result_type(np.dtype(dt), np.dtype(m)))
     return prom != dt and all(o == prom for _, o, _ in i["failures"])
